@@ -32,11 +32,11 @@ class C03(T.SeqCases, S.SchedCheck):
                    "IEEE-754 doubles satisfy LawfulTyme (a+0=a, <= reflexive/transitive/total, 0<=t -> a<=a+t, a<=b -> a+t<=b+t) on the finite non-NaN values used; no Lean instance is declared",
                    "DoDoers with tock > 0 and their members are outside the quantifier of C03: only order/once-per-cycle/tyme clauses are checked for them"]
     rule = ("op-free fault-free programs: own profiles flat/nested/hetero/f46/g04 (scripts positive* asap*, asap-then-positive, mixed; None and 0.0; tocks incl. 0.1 0.3 1/3 0.7; "
-            "starts incl. 0.3 100.1 7/3; limits incl. non-multiples and negative; random regroupings under tock-0 DoDoers incl. empty and nested) + profiles time/plain of the family; 30% of the cases are SECOND runs: the same doer objects were first run under another Doist (other start tyme, cut by a limit) and are then run under a fresh one. "
+            "starts incl. 0.3 100.1 7/3; limits incl. non-multiples and negative; random regroupings under tock-0 DoDoers incl. empty and nested) + profiles time/plain of the family; 6% degenerate programs (no doers, all done at enter, DoDoers without kids: the deque is empty when the first cycle runs); ~40% of the cases reach the same program through a history or another entry point (schedt.run_var: seq, same Doist twice, faulted first run, pre-wound, ints, iterator, doers at init, __call__, hand-driven enter/recur/exit, DoDoer opts); formerly: 30% of the cases are SECOND runs: the same doer objects were first run under another Doist (other start tyme, cut by a limit) and are then run under a fresh one. "
             "non-trivial = >= 10 recur events and some doer yields a positive tock; distinct by request line")
 
     def corpus(self):
-        return list(T.TIMING_CORPUS) + self.seq_corpus(T.TIMING_CORPUS)
+        return list(T.DEGENERATE_CORPUS) + list(T.TIMING_CORPUS) + self.seq_corpus(T.TIMING_CORPUS + T.DEGENERATE_CORPUS[:3])
 
     def request(self, case):
         return S.request(self.base(case))
@@ -61,7 +61,9 @@ class C03(T.SeqCases, S.SchedCheck):
         def plain():
             for _ in range(n):
                 k = rng.random()
-                if k < 0.2:
+                if k < 0.06:
+                    yield T.gen_degenerate(rng)
+                elif k < 0.2:
                     yield S.gen_case(rng, rng.choice(self.profiles))
                 else:
                     yield T.gen_timed(rng, rng.choice(["flat", "flat", "nested", "nested", "hetero", "f46", "g04", "g04"]))
@@ -69,8 +71,8 @@ class C03(T.SeqCases, S.SchedCheck):
 
     def run_impl(self, case):
         T.settle_heap()
-        if case[0] == "seq":
-            return T.TObs(T.run_second(case[2], case[1]))
+        if case[0] in ("seq", "var"):
+            return T.TObs(T.run_var(case[2], self.variant(case)))
         return T.TObs(S.run_program(case))
 
     def nontrivial(self, case, obs):
